@@ -22,6 +22,8 @@ class Forms(Part):
                 ["length", "true", "default", "trailing"],
                 ["trailing"],
                 ["trailing-any"],
+                ["length-wide"],
+                ["length-wide", "true", "default", "trailing-any"],
                 ["length", "true", "default", "trailing-any"],
                 ["length"],
                 ["true", "default"],
@@ -88,7 +90,7 @@ PROP = Property(
     id="C04",
     rule=(
         "Generated: abstract message x a choice tape that drives the reference encoder's freedoms at every TLV node "
-        "(length form minimal / long form in 1..8 octets / Active Directory's fixed 4-octet form; TRUE as any non-zero "
+        "(length form minimal / long form in 1..8 octets, with 'length-wide' up to 126 octets / Active Directory's fixed 4-octet form; TRUE as any non-zero "
         "octet; DEFAULT FALSE components encoded explicitly; 0-2 unrecognised trailing elements - PRIVATE class or "
         "context-specific numbers >= 12, low and high tag form, primitive or constructed, or ('trailing-any') any "
         "universal / application / low context-specific tag except the tag of an ABSENT optional component at the end "
